@@ -105,7 +105,7 @@ def run(module: str,
     """Run TLC on spec/<module>.tla with spec/<cfg>; returns parsed result."""
     cwd = cwd or SPEC
     meta = workdir("meta")
-    jopts = [f"-Xmx{heap}", "-XX:+UseParallelGC"]
+    jopts = [f"-Xmx{heap}", "-XX:+UseParallelGC", f"-DTLA-Library={SPEC}"]
     if dfs:
         jopts.append("-Dtlc2.tool.queue.IStateQueue=StateDeque")
     cmd = ["java", *jopts, "-cp", JAR, "tlc2.TLC", "-workers", str(workers), "-metadir", str(meta),
@@ -117,6 +117,8 @@ def run(module: str,
     if extra:
         cmd += extra
     cmd.append(module)
+    if os.environ.get("VERIF_DEBUG"):
+        print("[tlc]", " ".join(cmd), flush=True)
     e = dict(os.environ)
     e.pop("JAVA_TOOL_OPTIONS", None)
     if env:
